@@ -1,5 +1,6 @@
 import Cinco.Proofs.Nested
 import Cinco.Props.C10
+import Cinco.Generated.ContainerShape
 /-
   C10b — the mask (and the virtual flag) reach configurations held below nested containers.
 
@@ -161,5 +162,20 @@ example : renderNested masked grid (.str "x".toList) = .str "x".toList ∧
     renderNested masked shelves (.list [.null, .null, .null]) = .list [.null, .null, .null] := by decide
 
 end Demo
+
+/-- **/repo's `Config._render_nested` is the walk `renderNested` models** (generated reading of cincoconfig/core.py, regenerated on
+    every run): a configuration position is re-rendered with the caller's options; a held list or TUPLE is walked item by item
+    alongside a rendering that is a list or a tuple of the same length (F77: an untyped field hands a tuple back as it is — the
+    model's `Tree.list` stands for both, and the result keeps the rendering's type); a held dict alongside a dict of the same
+    length, keeping the rendering's keys; anything else is returned as the field rendered it. -/
+theorem render_nested_code_order :
+    Generated.containerShape.lookup "Config._render_nested" =
+      some ["if[isinstance(held, Config)]", "return held.to_tree(virtual=virtual, sensitive_mask=sensitive_mask)", "end",
+            "if[isinstance(held, (list, tuple)) and isinstance(basic, (list, tuple)) and (len(held) == len(basic))]",
+            "return type(basic)((self._render_nested(item, rendered, virtual, sensitive_mask) for item, rendered in zip(held, basic)))",
+            "end",
+            "if[isinstance(held, dict) and isinstance(basic, dict) and (len(held) == len(basic))]",
+            "return {key: self._render_nested(item, rendered, virtual, sensitive_mask) for item, (key, rendered) in zip(held.values(), basic.items())}",
+            "end", "return basic"] := by decide +kernel
 
 end Cinco.C10b
